@@ -54,8 +54,11 @@ def gen(rng: random.Random, tier: str, idx: int) -> dict:
             else:
                 ops.append({"kind": "delete_file", "tag": f"w{i}.{j}", "k": rng.randint(0, 3), "with_append": True})
         actors.append({"name": f"w{i}", "proc": f"pw{i}", "ops": ops})
-    jitter = 0.004 if backend == "local" else 0.6
-    delta = rng.uniform(-jitter, jitter)
+    # the collector wakes around the writers' commit: before it, inside it, or inside a retry back-off (20-80 ms)
+    if backend == "local":
+        delta = rng.choice([rng.uniform(-0.004, 0.004), rng.uniform(0.0, 0.09)])
+    else:
+        delta = rng.choice([rng.uniform(-0.6, 0.6), rng.uniform(0.0, 2.0)])
     gops = [{"kind": "sleep", "dt": max(0.0, gap + delta)}, {"kind": "gc", "grace_ms": grace_ms}]
     if rng.random() < 0.3:
         gops += [{"kind": "sleep", "dt": rng.choice([0.001, 15.0])}, {"kind": "gc", "grace_ms": grace_ms}]
@@ -65,6 +68,13 @@ def gen(rng: random.Random, tier: str, idx: int) -> dict:
         op, cls = rng.choice(HOLDS if backend == "local" else HOLDS_S3)
         pol["hold"] = {"actor": "gc", "op": op, "cls": cls, "nth": rng.choice([1, 1, 2, 3]),
                        "until": f"w{rng.randrange(nw)}", "until_ops": 1}
+    if nw == 2 and rng.random() < 0.4:
+        # force an OCC conflict: park w0 right before it takes the commit lock until w1 has committed, so w0's
+        # first attempt loses and the collector meets a transaction that is between two attempts
+        lock_site = {"op": "flock", "cls": "LOCK"} if backend == "local" else {"op": "put", "cls": "LOCK"}
+        pol.setdefault("holds", []).append(dict(lock_site, actor="w0", nth=1, until="w1", until_ops=1))
+        if rng.random() < 0.5:
+            pol["holds"].append(dict(lock_site, actor="w0", nth=2, until="gc", until_ops=rng.choice([1, 2])))
     setup = [{"kind": "append", "tag": f"s{k}", "n": 1} for k in range(rng.randint(0, 2))]
     if rng.random() < 0.4:
         setup += [{"kind": "delete_file", "tag": "sd", "k": 0, "with_append": True}, {"kind": "sleep", "dt": 7200.0}]
